@@ -18,6 +18,7 @@
 #include "asmpars.h"
 #include "asmsub.h"
 #include "console.h"
+#include "dynstr.h"
 #include "ioerrs.h"
 #include "nlmessages.h"
 #include "stdhandl.h"
@@ -931,10 +932,20 @@ static char const* ErrorNum2String(tErrorNum Num, char* Buf, int BufSize) {
  * \param  pLineComp associated string component
  * ------------------------------------------------------------------------ */
 
+#define ERR_CAT(pSrc)                                        \
+    do {                                                     \
+        if (!ErrStrCount) {                                  \
+            as_dynstr_append_c_str(&First, (pSrc));          \
+        } else {                                             \
+            strmaxcat(ErrStr[ErrStrCount], (pSrc), STRINGSIZE); \
+        }                                                    \
+    } while (0)
+
 void WrErrorString(
         char const* pMessage, char const* pAdd, Boolean Warning, Boolean Fatal,
         char const* pExtendError, const struct sLineComp* pLineComp) {
     String      ErrStr[4];
+    as_dynstr_t First; /* line 0 carries the position, which has no fixed maximum length */
     unsigned    ErrStrCount = 0, z;
     char*       p;
     int         l;
@@ -946,46 +957,44 @@ void WrErrorString(
         Warning = False;
     }
 
-    strcpy(ErrStr[ErrStrCount], pLeadIn);
+    as_dynstr_ini_c_str(&First, pLeadIn);
     p = GetErrorPos();
     if (p) {
         l = strlen(p) - 1;
         if ((l >= 0) && (p[l] == ' ')) {
             p[l] = '\0';
         }
-        strmaxcat(ErrStr[ErrStrCount], p, STRINGSIZE);
+        ERR_CAT(p);
         free(p);
     }
     if (pLineComp) {
         char Num[20];
 
         as_snprintf(Num, sizeof(Num), ":%d", pLineComp->StartCol + 1);
-        strmaxcat(ErrStr[ErrStrCount], Num, STRINGSIZE);
+        ERR_CAT(Num);
     }
     if (Warning || !GNUErrors) {
-        strmaxcat(ErrStr[ErrStrCount], ": ", STRINGSIZE);
-        strmaxcat(
-                ErrStr[ErrStrCount], getmessage(Warning ? Num_WarnName : Num_ErrName),
-                STRINGSIZE);
+        ERR_CAT(": ");
+        ERR_CAT(getmessage(Warning ? Num_WarnName : Num_ErrName));
     }
-    strmaxcat(ErrStr[ErrStrCount], pAdd, STRINGSIZE);
-    strmaxcat(ErrStr[ErrStrCount], ": ", STRINGSIZE);
+    ERR_CAT(pAdd);
+    ERR_CAT(": ");
     if (Warning) {
         WarnCount++;
     } else {
         ErrorCount++;
     }
 
-    strmaxcat(ErrStr[ErrStrCount], pMessage, STRINGSIZE);
+    ERR_CAT(pMessage);
     if ((ExtendErrors > 0) && pExtendError) {
         if (GNUErrors) {
-            strmaxcat(ErrStr[ErrStrCount], " '", STRINGSIZE);
+            ERR_CAT(" '");
         } else {
             strcpy(ErrStr[++ErrStrCount], pLeadIn);
         }
-        strmaxcat(ErrStr[ErrStrCount], pExtendError, STRINGSIZE);
+        ERR_CAT(pExtendError);
         if (GNUErrors) {
-            strmaxcat(ErrStr[ErrStrCount], "'", STRINGSIZE);
+            ERR_CAT("'");
         }
     }
     if ((ExtendErrors > 1) || ((ExtendErrors > 0) && pLineComp)) {
@@ -999,7 +1008,7 @@ void WrErrorString(
 
     if (strcmp(LstName, "/dev/null") && !Fatal) {
         for (z = 0; z <= ErrStrCount; z++) {
-            WrLstLine(ErrStr[z]);
+            WrLstLine(z ? ErrStr[z] : First.p_str);
         }
         ErrorsWrittenToListing = True;
     }
@@ -1011,12 +1020,14 @@ void WrErrorString(
     if (strcmp(LstName, "!1") || !ListOn || !ErrorsWrittenToListing) {
         for (z = 0; z <= ErrStrCount; z++) {
             if (ErrorFile) {
-                fprintf(pErrFile, "%s\n", ErrStr[z]);
+                fprintf(pErrFile, "%s\n", z ? ErrStr[z] : First.p_str);
             } else {
-                WrConsoleLine(ErrStr[z], True);
+                WrConsoleLine(z ? ErrStr[z] : First.p_str, True);
             }
         }
     }
+
+    as_dynstr_free(&First);
 
     if (Fatal) {
         fprintf(pErrFile, "%s\n", getmessage(Num_ErrMsgIsFatal));
